@@ -1623,10 +1623,13 @@ func (e *ForExpr) Value(ctx *hcl.EvalContext) (cty.Value, hcl.Diagnostics) {
 			} else {
 				k := key.AsString()
 				if _, exists := vals[k]; exists {
-					// The key is quoted in the message only when it carried no
-					// marks, since otherwise it might be sensitive.
+					// The key is quoted in the message only when neither it nor
+					// the collection it may have been derived from carried marks,
+					// since otherwise it might be sensitive. (The elements of a
+					// collection that is marked as a whole are bound to the
+					// iterator variables without those marks.)
 					keyDesc := "the same key"
-					if len(keyMarks) == 0 {
+					if len(keyMarks) == 0 && len(collMarks) == 0 {
 						keyDesc = fmt.Sprintf("the key %q", k)
 					}
 					diags = append(diags, &hcl.Diagnostic{
